@@ -146,6 +146,10 @@ def generate(rng, tier, run, seed=0):
                     bad += [('NM1', 'seg-only'), ('REF[1W]', 'seg-qual-only'), ('', 'empty')]
                 p, shape = rng.choice(bad)
             o.update({'path': p, 'shape': shape})
+            if op in ('get_value', 'set_value'):
+                # used instead of 'path' when the handle turns out to be a segment node (resolved against the model at run time)
+                o['segpath'] = {'id': rng.choice(['own', 'own', 'own', 'other']), 'qual': rng.choice([None, 'own', 'wrong', 'wrong']),
+                                'ele': rng.randint(1, 4)}
             if op == 'set_value':
                 o['val'] = ''.join(rng.choice(V.PLAIN) for _ in range(rng.randint(1, 6)))
         elif op in ('add_segment', 'add_loop', 'delete_segment'):
@@ -272,6 +276,15 @@ def execute(case):
             if op in ('copy', 'first_handle'):
                 real.append(None)
                 model.append(None)
+            if r.type == 'seg' and m.kind == 'seg' and op in ('get_value', 'set_value') and 'segpath' in o:
+                evals += 1
+                msg = seg_handle_op(r, m, o, n, h, log, out)
+                if msg is None:
+                    msg = sync_check('op %d %s on segment handle %d' % (n, op, h))
+                    if msg:
+                        out.violate('state', 'state|%s|seg-handle' % op, 'op %d %s on segment handle %d: %s' % (n, op, h, msg))
+                if out.violations:
+                    break
             continue
         evals += 1
         log.ev('op', op, h, o.get('path'), o.get('seg'))
@@ -381,7 +394,7 @@ def execute(case):
                             out.violate('api', 'first-content|%s' % shape, '%s is not the first match of the model' % tag)
                             break
                         if op == 'first_handle':
-                            if rres is not None and rres.type == 'loop':
+                            if rres is not None and rres.type in ('loop', 'seg'):
                                 real.append(rres)
                                 model.append(msel[0])
                             else:
@@ -498,6 +511,63 @@ def execute(case):
             break
         out.cover.add('%s|%s|%s|%s' % (op, 'root' if h == 0 else 'handle', shape, outcome))
     return fin(out, log, evals)
+
+
+def seg_handle_op(r, m, o, n, h, log, out):
+    """get_value / set_value on a segment node obtained from first(): the path may only name that segment itself"""
+    from pyx12.errors import X12PathError
+    sp = o['segpath']
+    sid = m.id if sp['id'] == 'own' else ('ZZ9' if m.id != 'ZZ9' else 'ZZ8')
+    matches = sp['id'] == 'own'
+    qualtxt = ''
+    if sp['qual'] and m.qual is not None:
+        e_, s_, codes_ = m.qual
+        qv = M.seg_value(m, e_, s_)
+        if sp['qual'] == 'own':
+            if qv and qv.isalnum() and qv.upper() == qv and qv in codes_:
+                qualtxt = '[%s]' % qv
+        else:
+            other = sorted(c for c in codes_ if c != qv and c.isalnum() and c.upper() == c)
+            if other:
+                qualtxt = '[%s]' % other[0]
+                matches = False
+    ele = min(sp['ele'], len(m.vals)) or 1
+    if o['op'] == 'set_value' and (ele > len(m.vals) or len(m.vals[ele - 1]) != 1):
+        return None           # keep to simple, existing elements
+    p = '%s%s%02d' % (sid, qualtxt, ele)
+    shape = 'seg-handle|%s|%s' % (sp['id'], 'q-' + str(sp['qual']) if qualtxt else 'noq')
+    tag = 'op %d %s(%s) on segment handle %d (%s)' % (n, o['op'], p, h, m.id)
+    log.ev('segop', o['op'], h, p)
+    try:
+        if o['op'] == 'get_value':
+            try:
+                got = r.get_value(p)
+                exc = None
+            except X12PathError as e:
+                got, exc = None, e
+            want = M.seg_value(m, ele, None) if matches else None
+            want = want.replace(':JOIN:', ':') if want is not None else None
+            if matches and (exc is not None or got != want):
+                out.violate('api', 'get-value|' + shape, '%s returned %r (%s), the segment holds %r' % (tag, got, exc, want))
+            elif not matches and got is not None:
+                out.violate('api', 'get-value-phantom|' + shape, '%s returned %r although the path does not name this segment' % (tag, got))
+        else:
+            try:
+                r.set_value(p, o['val'])
+                exc = None
+            except X12PathError as e:
+                exc = e
+            if matches:
+                if exc is not None:
+                    out.violate('api', 'set-value-refused|' + shape, '%s raised %s although the path names this segment' % (tag, exc))
+                else:
+                    M.set_value(m, ele, None, o['val'])
+            elif exc is None:
+                out.violate('api', 'set-value-accepted|' + shape, '%s did not raise although the path does not name this segment' % tag)
+    except Exception as e:
+        out.violate('exception', 'exception|%s|seg-handle|%s' % (o['op'], observe.exc_sig(e)), '%s raised %s: %s' % (tag, observe.exc_sig(e), e))
+    out.cover.add('%s|seg-handle|%s|%s' % (o['op'], shape, 'match' if matches else 'nomatch'))
+    return 'violated' if out.violations else None
 
 
 def fin(out, log, evals):
